@@ -53,7 +53,9 @@ def run(rep, tier):
                         "value of every entry for the four modes (as rational identities), identity scaling of degenerate columns, missing -> 0, "
                         "categorical columns untouched; inversion, advertised range/mean/deviation and the affine up-scaling identity are checked "
                         "exactly on the lattice. Real-valued matrices (1..300 rows x 1..20 columns, magnitudes 1e-6..1e6, near-constant columns down to "
-                        "a spread of 1e-8 of the mean, arbitrary missing patterns, multi-output models): statistics recomputed in long double, inversion, "
+                        "a spread of 1e-8 of the mean, arbitrary missing patterns, multi-label and structured inputs, continuous and categorical targets, sample lists "
+                        "that are subsets / permutations / with repetitions, multi-output models): statistics of inputs, targets and single features "
+                        "(make_flatten_stats / make_targets_stats / make_feature_stats, the iterators' own) recomputed in long double, inversion, "
                         "advertised range / mean / deviation, categorical columns, missing -> 0 and the affine identity are decided by the driver with "
                         "rounding tolerances and asserted by the trace specification (rounding is outside what TLC can decide).",
             evaluations=total, distinct_nontrivial=nscale, scale_records=nscale, affine_records=naff, float_records=nfloat, states=states, transitions=states,
